@@ -6,17 +6,24 @@
    named in the evidence.  The theorems are stated for every value of the switches.
 2. Source tie, re-run every time: REAL Server.handle goroutines (checkProtocol -> BinaryServerProtocol /
    TextServerProtocol .Process -> Close) over in-memory net.Conn pairs, one real LockDB with the manual clock
-   (harness/conn, injected in package server by go build -overlay).  Seeded connection lifetimes (0..6 wills, holds and
-   queued requests left behind, close by client / protocol error / server, reconnect under the same or another client
-   id, binary and text, timeouts and expiries swept before and after the close) run on the Go code and on the OCaml
+   (harness/conn, injected in package server by go build -overlay).  Seeded connection lifetimes (0..6 wills -- ordinary ones
+   mixed with wills naming a database that does not exist or DbId 0xff --, holds and queued requests left behind, close
+   by client / protocol error / server, reconnect under the same or another client id, several reconnect generations of
+   one client id whose wills wake the queued requests of older generations while the younger one is being torn down,
+   re-INIT, binary and text, timeouts and expiries swept before and after the close) run on the Go code and on the OCaml
    extraction of Conn.v; every frame received by every connection, the engine census (counters, holders, waiters with
    owner and request id), the per-connection state (open, inited, client id, will queue length, proxy target, text
    lockWaiter occupancy) and the clients table are compared after every action.
 3. Monitor = the property statement evaluated on the Go observations only: will effects exactly at the close action
-   (fresh-key LOCK wills become holders exactly then; UNLOCK wills of own holds release exactly then; in order; not
-   earlier; counters bound "at most once"), holds of the closed connection stay until unlocked/expired, every frame is
-   received by the issuer of its RequestId or by a connection that registered the client id the issuer had announced,
-   the census and the session table drain to zero, Close terminates.
+   (the registered wills -- ordinary ones and ones naming a missing database, which fail -- replayed one by one, in
+   registration order, against the census taken before the Close with the plain exclusive-lock semantics: the holders
+   and the grant / unlock / unlock-error / timeout counters after the Close must be exactly the predicted ones, so a
+   skipped, repeated or reordered will shows; answers of the wills forwarded to a connection that took the client id
+   over: one per will, in order; nothing earlier), holds of the closed connection stay until unlocked/expired, every
+   frame is received by the issuer of its RequestId or by a connection that registered the client id the issuer had
+   announced, every reply that falls due (a queued request leaves the wait queue) is delivered -- to its open owner, or,
+   the owner being closed, to a connection of the same client id -- and is lost only when no open connection currently
+   announces that id, the census and the session table drain to zero, Close terminates.
 """
 import collections, glob, json, os, re, shutil, subprocess, sys, tempfile, time
 from tools import vlib
@@ -30,10 +37,15 @@ MANIFEST = {
     "engine": "coq",
     "category": "proof",
     "text": "Connection layer (will queues, Close, INIT/clients table, proxy re-routing, text lockWaiter) modelled on top "
-            "of the lock-engine model and proved for all action lists; the property as stated is refuted by the faithful "
-            "model (text wills never run; a replying will of an INITed binary connection recurses without bound; replies "
-            "of connections that never sent INIT go to whoever registered the all-zero client id) with witnesses replayed "
-            "on the Go code; the guarded theorems are what does hold.",
+            "of the lock-engine model and proved for all action lists: wills (also ones that fail because their database "
+            "does not exist) once each, in order, at Close only; over all runs from the initial state a proxy is only "
+            "ever attached to an open connection that announced its client id, every frame goes to its requester or to a "
+            "connection of the same client id, a reply for a closed connection is delivered whenever a connection is "
+            "registered under its id.  The property as stated is refuted by the faithful model (text wills never run; a "
+            "replying will of an INITed binary connection recurses without bound; replies of connections that never sent "
+            "INIT go to whoever registered the all-zero client id; the registration of a client id is erased when its "
+            "youngest connection ends although an older one still announces it) with witnesses replayed on the Go code; "
+            "the guarded theorems are what does hold.",
     "note": "partial: goroutine interleaving of Close with asynchronous replies only at step granularity; TCP and the "
             "stream buffers are replaced by an in-memory net.Conn; the tie is a per-run correspondence check.",
     "technique": "executable Gallina model + induction over action lists; extraction to OCaml; in-package Go harness driving "
@@ -41,7 +53,7 @@ MANIFEST = {
 }
 
 VERIF = vlib.VERIF
-FLAGS = ("fix_will_lock", "fix_will_unlock", "fix_closed_rec", "fix_text_closed")
+FLAGS = ("fix_will_lock", "fix_will_unlock", "fix_closed_rec", "fix_text_closed", "chk_addproxy")
 T0 = 1000000
 TEXTREQ = 1000000
 
@@ -87,10 +99,17 @@ def derive_flags(repo):
         flags["fix_text_closed"] = False
     else:
         flags["fix_text_closed"] = re.search(r"if self\.closed \{\s*return", b[:b.index("self.lockWaiter <-")]) is not None
+    # the proxy is re-pointed to clients[clientId] only when that connection accepted it
+    b = func_body(src, "ProxyServerProtocol", "ProcessLockResultCommandLocked")
+    if b is None or "serverProtocol.AddProxy(self)" not in b or "self.serverProtocol = serverProtocol" not in b:
+        problems.append("ProxyServerProtocol.ProcessLockResultCommandLocked: adoption of the proxy not recognised")
+        flags["chk_addproxy"] = False
+    else:
+        flags["chk_addproxy"] = re.search(r"err\s*:?=\s*serverProtocol\.AddProxy\(self\)\s*\n\s*if err == nil \{\s*\n\s*self\.serverProtocol = serverProtocol\s*\n\s*\}", b) is not None
     # shape of the pieces the model transcribes (a refactor must be looked at by a human: the tie is then reported broken)
     for recv, fn, needles in (
-            ("BinaryServerProtocol", "Close", ["self.closed = true", "proxy.serverProtocol = defaultServerProtocol", "willCommands.Pop()", "self.ProcessCommad(command)", "delete(self.slock.clients, self.proxys[0].clientId)"]),
-            ("TextServerProtocol", "Close", ["self.closed = true", "proxy.serverProtocol = defaultServerProtocol", "willCommands.Pop()", "self.ProcessCommad(command)"]),
+            ("BinaryServerProtocol", "Close", ["self.closed = true", "proxy.serverProtocol = defaultServerProtocol", "willCommands.Pop()", "_ = self.ProcessCommad(command)", "delete(self.slock.clients, self.proxys[0].clientId)"]),
+            ("TextServerProtocol", "Close", ["self.closed = true", "proxy.serverProtocol = defaultServerProtocol", "willCommands.Pop()", "_ = self.ProcessCommad(command)"]),
             ("ProxyServerProtocol", "ProcessLockResultCommandLocked", ["self.serverProtocol == defaultServerProtocol", "slock.clients[self.clientId]", "serverProtocol.AddProxy(self)"]),
             ("TextServerProtocol", "ProcessLockResultCommandLocked", ["command.RequestId != self.lockRequestId"]),
             ("TextServerProtocol", "ProcessLockResultCommand", ["self.lockWaiter <- lockResultCommad"]),
@@ -110,12 +129,176 @@ def derive_flags(repo):
 
 
 # ------------------------------------------------------------------ case generation
+MISSING_DBS = (255, 255, 9, 17, 254)
+
+
+def with_db(cmdline, db):
+    """command fields `L|U req flag lockid key tflag timeout eflag expried count rcount` + optional DbId"""
+    return cmdline if not db else cmdline + " %d" % db
+
+
+def db_of(f, o):
+    """DbId of the command whose L|U field is f[o]"""
+    return int(f[o + 11]) if len(f) > o + 11 else 0
+
+
+def db_missing(f, o):
+    """ProcessCommad answers RESULT_UNKNOWN_DB: DbId 0xff, or an UNLOCK for a database that was never created
+    (only database 0 exists in a case: the generator never sends a LOCK for another one)"""
+    d = db_of(f, o)
+    return d == 255 or (d != 0 and f[o] == "U")
+
+
 class Gen:
-    def __init__(self, rng):
+    def __init__(self, rng, flags=None):
         self.rng = rng
+        self.flags = flags or {}
         self.stats = collections.Counter()
 
     def case(self, cid):
+        # several reconnect generations of one client id need INITed binary connections with replying wills: on a tree
+        # without the self-forward guard each of those kills the process at Close -- keep them rare there
+        if self.rng.random() < (0.4 if self.flags.get("fix_closed_rec", True) else 0.04):
+            return self.case_gens(cid)
+        return self.case_mixed(cid)
+
+    def case_gens(self, cid):
+        """one client id X over several connection generations; the wills of a younger generation release keys that
+        requests of older (closed) generations are queued for, so replies for closed connections are routed while the
+        younger one is between `closed = true` and its removal from SLock.clients; generations overlap or not; wills
+        for missing databases in between; a bystander with another id must never see any of it"""
+        r = self.rng
+        self.req = 0
+        self.treq = TEXTREQ
+        self.stats["profile_gens"] += 1
+        lines = ["case %s %d %d" % (cid, T0 + r.choice([0, 0, 3, 7]), r.choice([1, 1, 0, 2]))]
+        X = r.choice([5, 5, 9, 77])
+        Y = r.choice([6, 12])
+        kinds, opened, closed = {}, [], set()
+
+        def new(kind="B"):
+            c = len(kinds) + 1
+            kinds[c] = kind
+            opened.append(c)
+            lines.append("open %d %s" % (c, kind))
+            return c
+
+        def tick():
+            k = r.choices([1, 2, 3, 6, 11], [40, 25, 15, 15, 5])[0]
+            sw = ["sweept", "sweepe"]
+            r.shuffle(sw)
+            lines.extend(["adv %d" % k] + sw)
+            self.stats["tick"] += 1
+
+        def close(c):
+            how = r.choice(["client", "client", "error", "server"])
+            lines.append("close %d %s" % (c, how)); closed.add(c)
+            self.stats["close_" + how] += 1
+            self.stats["close_bin" if kinds[c] == "B" else "close_text"] += 1
+            self.stats["close_with_%d_wills" % min(nwills[c], 6)] += 1
+
+        nwills = collections.Counter()
+        H = new("B")
+        by = new(r.choice("BBT"))
+        if kinds[by] == "B" and r.random() < 0.7:
+            lines.append("init %d %d" % (by, Y))
+        keys = [7 + 10 * i for i in range(r.choice([2, 3, 3, 4]))]
+        hold = {}
+        for i, k in enumerate(keys):
+            lines.append("req %d L %d 0 %d %d 0 0 0 %d 0 0" % (H, self.nreq(H, kinds), 101 + i, k, r.choice([120, 120, 40])))
+            hold[k] = 101 + i
+        lid = iter(range(200, 500))
+        fresh = iter(range(5000, 5100))
+        ngen = r.choice([2, 3, 3, 4])
+        self.stats["gens_%d" % ngen] += 1
+        cur = None
+        for g in range(ngen):
+            if cur is None:
+                cur = new("B")
+                if r.random() < 0.12:
+                    lines.append("init %d %d" % (cur, r.choice([Y, 33])))      # announces another id first: re-INIT follows
+                    self.stats["reinit"] += 1
+                if r.random() < 0.93:
+                    lines.append("init %d %d" % (cur, X))
+            c = cur
+            # requests left queued behind H's holds (answers fall due after this generation is gone)
+            for k in r.sample(keys, r.randint(0 if g else 1, len(keys))):
+                if k in hold:
+                    lines.append("req %d L %d 0 %d %d 0 %d 0 %d 0 0" % (c, self.nreq(c, kinds), next(lid), k, r.choice([60, 60, 25, 6]), r.choice([5, 10, 2])))
+                    self.stats["lock"] += 1
+            if r.random() < 0.4:
+                lines.append("req %d L %d 0 %d %d 0 0 0 %d 0 0" % (c, self.nreq(c, kinds), next(lid), next(fresh), r.choice([3, 8, 30])))
+                self.stats["lock"] += 1
+            # wills
+            for _ in range(r.choice([0, 1, 2, 2, 3, 4, 5])):
+                x = r.random()
+                if x < 0.36 and hold:
+                    k = r.choice(sorted(hold))
+                    w = "U %d 0 %d %d 0 0 0 0 0 0" % (self.nreq(c, kinds), hold[k], k)         # releases H's hold: wakes older generations
+                    if r.random() < 0.8:
+                        del hold[k]                # (else a second will for the same hold follows: it must fail)
+                elif x < 0.58:
+                    if r.random() < 0.5:
+                        w = with_db("U %d 0 %d %d 0 0 0 0 0 0" % (self.nreq(c, kinds), r.choice([101, 102, 999]), r.choice(keys)), r.choice(MISSING_DBS))
+                    else:
+                        w = with_db("L %d 0 %d %d 0 0 0 30 0 0" % (self.nreq(c, kinds), next(lid), r.choice(keys + [next(fresh)])), 255)
+                    self.stats["will_missing_db"] += 1
+                elif x < 0.8:
+                    w = "L %d 0 %d %d 0 0 0 %d 0 0" % (self.nreq(c, kinds), next(lid), next(fresh), r.choice([30, 30, 10]))
+                else:
+                    w = "L %d 0 %d %d 0 %d 0 %d 0 0" % (self.nreq(c, kinds), next(lid), r.choice(keys), r.choice([0, 0, 8]), r.choice([5, 30]))
+                lines.append("will %d %s" % (c, w)); nwills[c] += 1
+                self.stats["wills"] += 1; self.stats["will_bin"] += 1
+            if r.random() < 0.3:
+                tick()
+            if hold and g and r.random() < 0.3:
+                # an answer for an older generation arrives while this one is open and registered: it adopts that proxy
+                # (and gives it back to the default protocol at the start of its own Close)
+                k = r.choice(sorted(hold))
+                lines.append("req %d U %d 0 %d %d 0 0 0 0 0 0" % (H, self.nreq(H, kinds), hold.pop(k), k))
+                self.stats["unlock"] += 1
+            if r.random() < 0.08:
+                lines.append("init %d %d" % (c, r.choice([Y, 33])))       # gives the id up before it ends
+                self.stats["reinit"] += 1
+            # the next generation announces the id before (overlap) or after this one ends
+            nxt = None
+            if g + 1 < ngen and r.random() < 0.4:
+                nxt = new("B")
+                if r.random() < 0.93:
+                    lines.append("init %d %d" % (nxt, X))
+                self.stats["gens_overlap"] += 1
+            if r.random() < 0.9 or g + 1 < ngen:
+                close(c)
+            cur = nxt
+            # replies for the closed generations fall due: H lets a key go / deadlines pass
+            for _ in range(r.choice([0, 1, 1, 2])):
+                if hold and r.random() < 0.6:
+                    k = r.choice(sorted(hold))
+                    lines.append("req %d U %d 0 %d %d 0 0 0 0 0 0" % (H, self.nreq(H, kinds), hold.pop(k), k))
+                    self.stats["unlock"] += 1
+                else:
+                    tick()
+        # a last connection of the same client stays while everything left falls due
+        if r.random() < 0.7:
+            last = new("B")
+            if r.random() < 0.9:
+                lines.append("init %d %d" % (last, X))
+        for k in sorted(hold):
+            if r.random() < 0.8:
+                lines.append("req %d U %d 0 %d %d 0 0 0 0 0 0" % (H, self.nreq(H, kinds), hold[k], k))
+                self.stats["unlock"] += 1
+            if r.random() < 0.4:
+                tick()
+        for _ in range(r.choice([1, 2, 3])):
+            tick()
+        lines += ["adv 70", "sweept", "sweepe"]
+        for c in opened:
+            lines.append("close %d client" % c)
+        lines += ["adv 130", "sweepe", "sweept", "adv 40", "sweepe", "sweept"]
+        lines.append("end")
+        return lines
+
+    def case_mixed(self, cid):
         r = self.rng
         self.req = 0
         self.treq = TEXTREQ
@@ -189,6 +372,10 @@ class Gen:
                     w = lock(c, timeout=r.choice([0, 0, 5]))
                 else:
                     w = unlock(c)
+                if kinds[c] == "B" and r.random() < 0.22:
+                    # names a database that does not exist: answered RESULT_UNKNOWN_DB, must not stop the wills after it
+                    w = with_db(w if w.startswith("U ") or r.random() < 0.5 else "U" + w[1:], 255 if w.startswith("L ") else r.choice(MISSING_DBS))
+                    self.stats["will_missing_db"] += 1
                 lines.append("will %d %s" % (c, w)); wills[c].append(w); self.stats["wills"] += 1
                 self.stats["will_text" if kinds[c] == "T" else "will_bin"] += 1
             elif x < 0.25 and len(wills[c]) < 3 and c != subject and (c not in inited or r.random() < 0.1):
@@ -245,6 +432,9 @@ class Gen:
             for w in wills[subject][:3]:
                 f = w.split()
                 lines.append("req %d %s" % (o, lock(o, key=int(f[4]), lockid=r.choice(ids), timeout=0, expried=2, count=0)))
+            if r.random() < 0.15:
+                # an ordinary request for a missing database is answered RESULT_UNKNOWN_DB (same code path as a will)
+                lines.append("req %d %s" % (o, with_db(unlock(o), r.choice(MISSING_DBS))))
         for _ in range(r.choice([1, 2, 3])):
             lines += tick()
         lines += ["adv 40", "sweept", "sweepe"]
@@ -416,12 +606,70 @@ def holders_of(step):
     return {(k, h["lockid"], h["req"], h["owner"]) for k, v in step.keys.items() for h in v["holders"]}
 
 
+def waiters_of(step):
+    """set of (key, lockid, req, owner) of live queued requests"""
+    return {(k, w["lockid"], w["req"], w["owner"]) for k, v in step.keys.items() for w in v["waiters"]}
+
+
+def replay_wills(ws, prev):
+    """The registered wills `ws` (action field lists, registration order) executed one by one, each exactly once, against
+    the census `prev` taken before the Close, with the plain semantics of exclusive locks.  Only keys whose outcome that
+    semantics determines are followed (no queued request on the key, at most one holder, every will on it exclusive,
+    not re-entrant, with an expiry, and never queueing); a will naming a missing database changes nothing.
+    returns (expected holder per followed key: None | (lockid, req), counters dict or None when some key is not followed)"""
+    per_key = collections.defaultdict(list)
+    for w in ws:
+        if not db_missing(w, 2):
+            per_key[int(w[6])].append(w)
+    state, followed = {}, set()
+    for k, kws in per_key.items():
+        cen = prev.keys.get(k)
+        hs = cen["holders"] if cen else []
+        if (cen and cen["waiters"]) or len(hs) > 1 or any(h["depth"] != 1 for h in hs):
+            continue
+        if any(int(w[11]) != 0 or int(w[12]) != 0 or int(w[4]) != 0 or int(w[7]) != 0 or int(w[9]) != 0 for w in kws):
+            continue
+        if any(w[2] == "L" and int(w[10]) == 0 for w in kws):
+            continue
+        followed.add(k)
+        state[k] = (hs[0]["lockid"], hs[0]["req"]) if hs else None
+    cnt = collections.Counter()
+    for w in ws:
+        if db_missing(w, 2):
+            cnt["nodb"] += 1
+            continue
+        k, lid = int(w[6]), int(w[5])
+        if k not in followed:
+            continue
+        cur = state[k]
+        if w[2] == "L":
+            if cur is None:
+                state[k] = (lid, w[3]); cnt["L"] += 1
+            elif cur[0] == lid:
+                followed.discard(k)            # re-lock of the same lock id: not followed
+            elif int(w[8]) == 0:
+                cnt["T"] += 1                  # held by another lock id, no waiting: TIMEOUT, nothing changes
+            else:
+                followed.discard(k)            # queues: not followed from here on
+        else:
+            if cur is not None and cur[0] == lid:
+                state[k] = None; cnt["U"] += 1
+            else:
+                cnt["UE"] += 1
+    complete = all(int(w[6]) in followed for w in ws if not db_missing(w, 2))
+    return {k: state[k] for k in followed}, (cnt if complete else None)
+
+
+MON = collections.Counter()        # what the monitor got to judge (evidence)
+
+
 def monitor(case, lines):
     """returns list of (signature, description, step index)"""
     viol = []
     steps = parse_steps(lines)
     acts = [l.split() for l in case[1:] if l != "end"]
     kinds, issuer, announced, wills, closed_at, ever = {}, {}, {}, collections.defaultdict(list), {}, {}
+    table = {}          # client id -> the connection that announced it last and has neither closed nor re-INITed since
     key_mentions = collections.Counter()
     for a in acts:
         if a[0] in ("req", "will"):
@@ -440,7 +688,10 @@ def monitor(case, lines):
         elif s.ignored:
             pass
         elif a[0] == "init":
+            if c in announced and table.get(announced[c]) == c:
+                del table[announced[c]]
             announced[c] = int(a[2])
+            table[int(a[2])] = c
             ever.setdefault(c, set()).add(int(a[2]))
         elif a[0] == "req":
             if kinds[c] == "B":
@@ -473,7 +724,63 @@ def monitor(case, lines):
                 elif announced[src] not in ever.get(to, ()):
                     viol.append(("misroute:other-client-id", "frame for request %s of closed connection %d (client id %s) delivered to %d (client id %s)"
                                  % (fr["req"], src, announced[src], to, announced.get(to)), i))
+        # ---- replies that fall due: a queued request left the wait queue (granted or timed out) -> exactly one answer,
+        #      delivered to its open owner or, the owner being closed, to a connection of the same client id; lost only
+        #      when no open connection currently announces that id
+        closing = c if a[0] == "close" and not s.ignored else None
+        if prev is not None and s.snap is not None:
+            for (k, lid, req, owner) in sorted(waiters_of(prev) - waiters_of(s)):
+                if not owner.isdigit():
+                    continue
+                o = int(owner)
+                if req == "T":
+                    got = [fr for fr in s.frames if fr["req"] == "T" and fr["to"] == o and fr["lockid"] == lid]
+                else:
+                    got = [fr for fr in s.frames if fr["req"] == req]
+                MON["replies_due"] += 1
+                if o in closed_at or o == closing:
+                    MON["replies_due_owner_closed"] += 1
+                    if closing is not None and o != closing:
+                        MON["replies_due_inside_close_of_another_connection"] += 1
+                        if announced.get(o) is not None and announced.get(o) == announced.get(closing):
+                            MON["replies_due_inside_close_of_same_client_id"] += 1
+                    if got:
+                        MON["replies_of_closed_owner_delivered_to_same_client_id"] += 1
+                    else:
+                        MON["replies_of_closed_owner_dropped"] += 1
+                if len(got) > 1:
+                    viol.append(("reply-duplicated", "request %s of connection %d (key %d) was answered %d times in one step (to %s)" % (req, o, k, len(got), [fr["to"] for fr in got]), i))
+                if got:
+                    continue            # (whether the receiver is a legitimate one is judged above)
+                if o not in closed_at and o != closing:
+                    if kinds.get(o) == "B" or req == "T":
+                        viol.append(("reply-lost:owner-open", "request %s of OPEN connection %d (key %d, lock id %d) left the wait queue but no answer reached the connection" % (req, o, k, lid), i))
+                    continue
+                if kinds.get(o) != "B" or o not in announced:
+                    continue            # a closed connection that never announced a client id: nobody to deliver to
+                X = announced[o]
+                live = [d for d in sorted(kinds) if d not in closed_at and d != closing and announced.get(d) == X]
+                reg = table.get(X)
+                if reg is not None and reg in live:
+                    viol.append(("reply-lost:registered-live",
+                                 "the answer to request %s (key %d, lock id %d) of closed connection %d (client id %d) was dropped although connection %d, open, "
+                                 "is the one that announced client id %d last -- the reply must be delivered to it" % (req, k, lid, o, X, reg, X), i))
+                elif live:
+                    viol.append(("reply-lost:live-same-id:shadowed",
+                                 "the answer to request %s (key %d, lock id %d) of closed connection %d (client id %d) was dropped although connection(s) %s, open, announce "
+                                 "client id %d: the registration of that id was erased when a younger connection of the same id ended or re-INITed" % (req, k, lid, o, X, live, X), i))
         # ---- wills: never before the close
+        if prev is not None and s.snap is not None:
+            for cc, ws in wills.items():
+                if cc in closed_at or cc == closing:
+                    continue
+                wreqs = {w[3] for w in ws if w[3] != "T"} if kinds.get(cc) == "B" else set()
+                early = [fr for fr in s.frames if fr["req"] in wreqs]
+                if early:
+                    viol.append(("will-early", "will request %s of connection %d was answered (result %d, to connection %d) before the connection closed" % (early[0]["req"], cc, early[0]["res"], early[0]["to"]), i))
+                wq = [w for w in waiters_of(s) if w[2] in wreqs]
+                if wq:
+                    viol.append(("will-early", "will request %s of connection %d shows up as a queued request before the connection closed" % (wq[0][2], cc), i))
         if prev is not None and s.snap is not None:
             now_h = holders_of(s)
             for cc, ws in wills.items():
@@ -494,8 +801,8 @@ def monitor(case, lines):
                 before, after = holders_of(prev), holders_of(s)
                 dL = int(s.snap["L"]) - int(prev.snap["L"])
                 dU = int(s.snap["U"]) - int(prev.snap["U"])
-                nL = sum(1 for w in wills[c] if w[2] == "L")
-                nU = sum(1 for w in wills[c] if w[2] == "U")
+                nL = sum(1 for w in wills[c] if w[2] == "L" and not db_missing(w, 2))
+                nU = sum(1 for w in wills[c] if w[2] == "U" and not db_missing(w, 2))
                 wb = {(k, w["lockid"], w["req"]) for k, v in prev.keys.items() for w in v["waiters"]}
                 wa = {(k, w["lockid"], w["req"]) for k, v in s.keys.items() for w in v["waiters"]}
                 if dL > nL + len(wb - wa) or dU > nU:       # (waiters woken by a will's release count in LockCount too)
@@ -505,35 +812,61 @@ def monitor(case, lines):
                                  "%s connection %d closed with %d will(s) registered; none ran: the will queue still holds %s command(s) after Close (LockCount +%d, UnLockCount +%d)"
                                  % ("text" if kinds[c] == "T" else "binary", c, len(wills[c]), st.get("wills"), dL, dU), i))
                 else:
-                    # fresh-key LOCK wills must hold their key now; UNLOCK wills of own live holds must have released them
-                    seen_key = set()
-                    for w in wills[c]:
-                        k, lid = int(w[6]), int(w[5])
-                        if w[2] == "L" and key_mentions[k] == 1 and int(w[10]) > 0:      # (Expried 0 = no hold is kept)
-                            hit = [h for h in after if h[0] == k and h[1] == lid]
-                            if len(hit) != 1:
-                                viol.append(("will-not-executed:%s" % ("text" if kinds[c] == "T" else "binary"),
-                                             "will LOCK key %d of connection %d is not held after Close" % (k, c), i))
-                        if w[2] == "U" and k not in seen_key:
-                            mine = [h for h in before if h[0] == k and h[1] == lid and h[3] == str(c)]
-                            if mine and any(h[0] == k and h[1] == lid and h[2] == mine[0][2] for h in after):
-                                viol.append(("will-unlock-not-executed", "will UNLOCK key %d lock id %d of connection %d: the hold is still there after Close" % (k, lid, c), i))
-                        seen_key.add(k)
-                    # order: two LOCK wills (timeout 0, count 0, different lock ids) on a key that was free: the first wins
-                    firsts = {}
-                    for w in wills[c]:
-                        if w[2] == "L":
-                            firsts.setdefault(int(w[6]), []).append(w)
-                    for k, ws in firsts.items():
-                        if len(ws) >= 2 and not any(h[0] == k for h in before) and all(int(w[11]) == 0 for w in ws) and not any(int(w2[6]) == k for w2 in wills[c] if w2[2] == "U"):
-                            hs = [h for h in after if h[0] == k]
-                            if hs and int(ws[0][10]) > 0 and hs[0][1] != int(ws[0][5]):
-                                viol.append(("will-order", "wills of %d on key %d: holder after Close is lock id %d, the first registered will asked for %s" % (c, k, hs[0][1], ws[0][5]), i))
+                    kd = "text" if kinds[c] == "T" else "binary"
+                    # every will once, in order: replay them against the census before the Close
+                    exp, cnt = replay_wills(wills[c], prev)
+                    treqs = {w[3] for w in wills[c]}
+                    if wills[c]:
+                        MON["closes_with_wills_replayed"] += 1
+                        MON["will_keys_followed"] += len(exp)
+                        MON["closes_with_failing_will_before_ordinary_will"] += any(db_missing(w, 2) and any(not db_missing(w2, 2) for w2 in wills[c][n + 1:]) for n, w in enumerate(wills[c]))
+                        MON["closes_with_counters_checked"] += cnt is not None
+                    for k in sorted(exp):
+                        obs = sorted((h[1], h[2]) for h in after if h[0] == k)
+                        want = [exp[k]] if exp[k] is not None else []
+                        if kinds[c] == "T":         # (the server generates the request ids of text commands: printed as T)
+                            want = [(w0[0], "T" if w0[1] in treqs else w0[1]) for w0 in want]
+                        if obs != want:
+                            on_k = ["%s(lock id %s, request %s)" % ("LOCK" if w[2] == "L" else "UNLOCK", w[5], w[3]) for w in wills[c] if int(w[6]) == k and not db_missing(w, 2)]
+                            first_missing = next((n for n, w in enumerate(wills[c]) if db_missing(w, 2)), None)
+                            by_will = bool(obs) and any(int(w[5]) == obs[0][0] and w[3] == obs[0][1] and int(w[6]) == k for w in wills[c])
+                            sig = "will-order" if want and by_will else "will-not-executed:%s" % kd
+                            viol.append((sig, "wills of %s connection %d on key %d, in registration order: %s%s -- executed once each, in order, they leave holder %s; after Close the key has %s"
+                                         % (kd, c, k, ", ".join(on_k), "" if first_missing is None else " (will #%d names a missing database and fails; %d will(s) follow it)" % (first_missing + 1, len(wills[c]) - first_missing - 1),
+                                            want or "none", obs or "no holder"), i))
+                    if cnt is not None:
+                        dUE = int(s.snap["UE"]) - int(prev.snap["UE"])
+                        got = {"L": dL, "U": dU, "UE": dUE}      # (a LOCK refused at once is not counted anywhere)
+                        want = {x: cnt[x] for x in got}
+                        if got != want:
+                            fewer = any(got[x] < want[x] for x in got)
+                            viol.append(("will-not-executed:%s" % kd if fewer else "will-more-than-once",
+                                         "close of %s connection %d with %d will(s) (%d of them naming a missing database): executed once each they make grants/unlocks/unlock errors %s, the counters moved by %s"
+                                         % (kd, c, len(wills[c]), cnt["nodb"], [want[x] for x in ("L", "U", "UE")], [got[x] for x in ("L", "U", "UE")]), i))
+                    # answers of the wills forwarded to the connection that took the client id over: one per will, in order
+                    #   (a LOCK will that may queue is answered whenever it is granted: only the immediate answers are ordered)
+                    wreq = [w[3] for w in wills[c]] if kinds[c] == "B" else []
+                    imm = [w[3] for w in wills[c] if db_missing(w, 2) or w[2] == "U" or int(w[8]) == 0] if kinds[c] == "B" else []
+                    seen = [fr for fr in s.frames if fr["req"] in wreq and fr["req"] != "T"]
+                    order = [imm.index(fr["req"]) for fr in seen if fr["req"] in imm]
+                    if order != sorted(order):
+                        viol.append(("will-reply-order", "answers of the wills of connection %d arrived as requests %s; registered order is %s" % (c, [fr["req"] for fr in seen], wreq), i))
+                    fwd_to = table.get(announced.get(c)) if c in announced else None
+                    if fwd_to is not None and fwd_to != c and fwd_to not in closed_at and kinds.get(fwd_to) == "B":
+                        MON["closes_with_will_answers_forwarded"] += bool(wills[c])
+                        for w in wills[c]:
+                            immediate = db_missing(w, 2) or w[2] == "U" or int(w[8]) == 0
+                            n = sum(1 for fr in seen if fr["req"] == w[3])
+                            if immediate and n != 1:
+                                viol.append(("will-reply-missing" if n == 0 else "reply-duplicated",
+                                             "will request %s of connection %d (client id %s, taken over by open connection %d) was answered %d times at Close" % (w[3], c, announced[c], fwd_to, n), i))
                 # holds of the closed connection stay unless a will released them
                 gone = [h for h in before - after if h[3] == str(c)]
                 for h in gone:
-                    if not any(w[2] == "U" and int(w[6]) == h[0] for w in wills[c]) and not any(w[2] == "L" and int(w[6]) == h[0] for w in wills[c]):
+                    if not any(int(w[6]) == h[0] and not db_missing(w, 2) for w in wills[c]):
                         viol.append(("hold-lost-at-close", "hold (key %d, lock id %d) of connection %d vanished at its Close without a will touching the key" % (h[0], h[1], c), i))
+        if closing is not None and closing in announced and table.get(announced[closing]) == closing:
+            del table[announced[closing]]
         if s.snap is not None:
             prev = s
     # ---- drained
@@ -596,6 +929,11 @@ def run(ctx):
     repo = vlib.REPO
     flags, problems = derive_flags(repo)
     ctx.obligation("model switches derived from server/protocol.go (%s)" % ", ".join("%s=%d" % kv for kv in sorted(flags.items())), not problems, "; ".join(problems))
+    ctx.obligation("hypothesis chk_addproxy of C18_proxy_target_accepting / C18_registered_is_live_announcer / C18_frames_never_to_stranger / "
+                   "C18_reply_delivered_or_dropped holds for the source (ProxyServerProtocol.ProcessLockResultCommandLocked assigns the proxy "
+                   "target only when AddProxy returned nil)", flags.get("chk_addproxy", False),
+                   "" if flags.get("chk_addproxy") else "the AddProxy result is not honoured: C18_refuted_proxy_glued applies")
+    MON.clear()
     # ---- 1. proofs
     ok, log = ctx.coq(["Properties/C18.vo"])
     pfile = os.path.join(vlib.COQ, "Properties", "C18.v")
@@ -615,7 +953,7 @@ def run(ctx):
     runner = Runner(ctx, impl, model, flags)
 
     # ---- 3. cases: replay / corpus first, then seeded lifetimes
-    gen = Gen(ctx.rng)
+    gen = Gen(ctx.rng, flags)
     if getattr(ctx, "replay", None):
         rp = json.load(open(ctx.replay))
         c = rp.get("replay", {}).get("case") or rp.get("case")
@@ -625,7 +963,7 @@ def run(ctx):
         cases = [c]
     else:
         cases = load_corpus()
-        n = 6000 if thorough else 300
+        n = 8000 if thorough else 800
         cases += [gen.case("g%d" % i) for i in range(n)]
     mismatches, hits = [], collections.OrderedDict()
     nsteps = nframes = 0
@@ -652,7 +990,7 @@ def run(ctx):
                         sum(1 for l in c if l.startswith("will ")), any(l.startswith("ev crash") for l in li)))
             for sig, what, idx in monitor(c, li):
                 hits.setdefault(sig, []).append((c, what, idx))
-        if time.time() - t0 > (1500 if thorough else 48) and b + per < len(cases):
+        if time.time() - t0 > (1500 if thorough else 34) and b + per < len(cases):
             ctx.notes.append("time budget reached after %d cases" % (b + per))
             cases = cases[:b + per]
             break
@@ -664,6 +1002,11 @@ def run(ctx):
         if not known and len(c) > 8:
             try:
                 c = shrink(runner, c, sig)
+                # describe the shrunk input, not the one it came from
+                out = runner.run_impl([c]).get(c[0].split()[1])
+                again = [(w2, i2) for s2, w2, i2 in monitor(c, out or []) if s2 == sig]
+                if again:
+                    what, idx = again[0]
             except Exception as ex:
                 ctx.notes.append("shrink failed: %s" % ex)
         ctx.violation(sig, what, {"case": c, "step": idx, "occurrences": len(lst), "switches": flags,
@@ -671,6 +1014,10 @@ def run(ctx):
     if not ok or not names:
         ctx.violation("proof:C18", "Properties/C18.v no longer checks: " + getattr(ctx, "coq_failure", "missing")[:500],
                       {"broken": "coq", "theorems": names, "detail": getattr(ctx, "coq_failure", "")[:3000]}, found_input=False)
+    if not flags.get("chk_addproxy") and not any(sg.startswith("reply-lost:registered-live") for sg in hits):
+        ctx.violation("proof-hypothesis:chk_addproxy", "ProxyServerProtocol.ProcessLockResultCommandLocked no longer guards the proxy assignment by the AddProxy result: "
+                      "the routing theorems do not apply to this source (C18_refuted_proxy_glued does); no lost reply was observed in this run",
+                      {"broken": "hypothesis chk_addproxy", "witness": "corpus/C18/reconnect_generations.case (= ConnRoute.w_reconnect_twice)"}, found_input=False)
     if problems:
         ctx.violation("source-shape:C18", "server/protocol.go no longer has the shape the model transcribes: " + "; ".join(problems)[:600],
                       {"broken": "source patterns of checks/C18.py:derive_flags", "detail": problems}, found_input=False)
@@ -689,8 +1036,14 @@ def run(ctx):
         "connection goroutine finished, idle in Read, or parked on lockWaiter (goroutine dump); manual clock, sweeps replayed by the harness; "
         "debug.SetMaxStack(4MB) so that unbounded recursion ends quickly",
         "extraction: ExtrOcamlBasic only; ocaml/conn/driver.ml (parser, printer)",
-        "not modelled: true interleaving of Close with an asynchronous reply (step granularity only), TCP / Stream buffering, binary buffered-write mode, "
-        "DbId other than 0, value data, ADMIN sub-protocol, transparency (follower) protocols, client-chosen RequestId 0, close of a text connection that is parked on a waiting request",
+        "not modelled: true interleaving of Close with an asynchronous reply (step granularity only: a reply is routed before a Close, while it drains its wills -- "
+        "closed = true, still in SLock.clients --, or after it; not between two statements of Close), TCP / Stream buffering, binary buffered-write mode, "
+        "a second database (only DbId 0 exists; DbId 0xff and UNLOCKs for databases never created are modelled, a LOCK for DbId 1..254 -- which creates one -- and "
+        "SELECT on a text connection are outside the fragment and never generated), value data, ADMIN sub-protocol, transparency (follower) protocols, "
+        "client-chosen RequestId 0, close of a text connection that is parked on a waiting request",
+        "monitor: a reply is known to be due when a queued request leaves the wait queue between two census snapshots (grant or timeout); expiry notices and the "
+        "immediate answers of a closed connection's own wills are judged only when they are seen (routing) or through their engine effect; `replay_wills` "
+        "follows a key only where plain exclusive-lock semantics decides the outcome (no queue on the key, one holder at most, Count = Rcount = 0, flags 0, Expried > 0)",
         "classification of a reply as synchronous (requester's own answer) uses (connection, RequestId): request ids are unique per case in the generator",
     ]
     cov = {
@@ -700,6 +1053,7 @@ def run(ctx):
         "actions": nsteps, "frames_observed": nframes, "input_distribution": dict(sorted(gen.stats.items())),
         "process_crashes_observed": runner.crashes, "mismatches": len(mismatches),
         "monitor_signatures": {k: len(v) for k, v in hits.items()},
+        "monitor_judged": dict(sorted(MON.items())),
         "switches_in_force": flags, "coq_seconds": coq_s, "impl_seconds": round(runner.impl_s, 1), "model_seconds": round(runner.model_s, 1),
     }
     return ctx.finish(cov, assumptions=[
